@@ -72,10 +72,45 @@ func (p *vblockStmt) End(cb *CodeBuilder, src ast.Node) {
 // end
 type ifStmt struct {
 	init target.Stmt
+	pre  []target.Stmt // header statements that precede the if statement (see splitHeaderStmts)
 	cond target.Expr
 	body *target.BlockStmt
 	old  codeBlockCtx
 	old2 codeBlockCtx
+}
+
+// splitHeaderStmts splits the statements emitted in the header of an if or switch statement.
+// A single statement is the init statement. Several statements are allowed when all but the
+// first are auto-generated assertions: they cannot share the init clause, so all of them go
+// before the statement (pre).
+func splitHeaderStmts(stmts []target.Stmt) (init target.Stmt, pre []target.Stmt, ok bool) {
+	switch len(stmts) {
+	case 0:
+		return nil, nil, true
+	case 1:
+		return stmts[0], nil, true
+	}
+	for _, stmt := range stmts[1:] {
+		if !isAutoAssertStmt(stmt) {
+			return nil, nil, false
+		}
+	}
+	return nil, stmts, true
+}
+
+// emitWithPreStmts emits stmt preceded by the header statements pre. The temporaries of
+// auto-generated assertions are unique, so they can live in the enclosing block; a user init
+// statement declares user names and keeps its scope in a block of its own.
+func emitWithPreStmts(cb *CodeBuilder, pre []target.Stmt, stmt target.Stmt) {
+	if len(pre) > 0 && !isAutoAssertStmt(pre[0]) {
+		list := make([]target.Stmt, 0, len(pre)+1)
+		cb.emitStmt(&target.BlockStmt{List: append(append(list, pre...), stmt)})
+		return
+	}
+	for _, s := range pre {
+		cb.emitStmt(s)
+	}
+	cb.emitStmt(stmt)
 }
 
 // isBooleanCond reports whether typ can be the type of an if or for condition: any
@@ -97,12 +132,8 @@ func (p *ifStmt) Then(cb *CodeBuilder, src ...ast.Node) {
 		cb.panicCodeError(getPos(src), getEnd(src), "non-boolean condition in if statement")
 	}
 	p.cond = cond.Val
-	switch stmts := cb.clearBlockStmt(); len(stmts) {
-	case 0:
-		// nothing to do
-	case 1:
-		p.init = stmts[0]
-	default:
+	var ok bool
+	if p.init, p.pre, ok = splitHeaderStmts(cb.clearBlockStmt()); !ok {
 		panic("if statement has too many init statements")
 	}
 	cb.startBlockStmt(p, src, "if body", &p.old2)
@@ -159,6 +190,7 @@ func (p *ifStmt) End(cb *CodeBuilder, src ast.Node) {
 // end
 type switchStmt struct {
 	init target.Stmt
+	pre  []target.Stmt // header statements that precede the switch statement
 	tag  *internal.Elem
 	old  codeBlockCtx
 }
@@ -168,12 +200,8 @@ func (p *switchStmt) Then(cb *CodeBuilder, src ...ast.Node) {
 		panic("use None() for empty switch tag")
 	}
 	p.tag = cb.stk.Pop()
-	switch stmts := cb.clearBlockStmt(); len(stmts) {
-	case 0:
-		// nothing to do
-	case 1:
-		p.init = stmts[0]
-	default:
+	var ok bool
+	if p.init, p.pre, ok = splitHeaderStmts(cb.clearBlockStmt()); !ok {
 		panic("switch statement has too many init statements")
 	}
 }
